@@ -413,12 +413,23 @@ def clearing(sess, ops, mh, d):
             out.append(Disc('C04', 'asset-demand-not-sum-of-holders', 'asset-demand-not-sum-of-holders:' + d.sectors[fm]['cls'],
                             abs(total[k] - tot), scale_of(ts, k), market=R.full_code(d, fm), k=k, total=total[k],
                             sum_of_holders=tot, holders=[R.full_code(d, h) for h, _ in holders]))
+        msup = sector_series(sess, mh, fm, 'SUP_' + code)
+        if msup is not None:
+            for k in range(1, T + 1):
+                out.append(Disc('C04', 'asset-supply-not-demand', 'asset-supply-not-demand:' + d.sectors[fm]['cls'],
+                                abs(msup[k] - total[k]), scale_of(ts, k), market=R.full_code(d, fm), k=k,
+                                supply=msup[k], demand=total[k]))
         if iss is not None:
             isup = sector_series(sess, mh, iss, 'SUP_' + code)
             if isup is not None:
                 for k in range(1, T + 1):
                     out.append(Disc('C04', 'issuer-supply-not-demand', 'issuer-supply-not-demand', abs(isup[k] - total[k]),
                                     scale_of(ts, k), market=R.full_code(d, fm), k=k))
+            else:
+                # the declared issuer (a sector of the market's currency zone) carries no supply at all
+                for k in range(1, T + 1):
+                    out.append(Disc('C04', 'issuer-supply-missing', 'issuer-supply-missing', abs(total[k]),
+                                    scale_of(ts, k), market=R.full_code(d, fm), issuer=R.full_code(d, iss), k=k))
     return out, notes
 
 
